@@ -5,6 +5,7 @@ from vlib import run_pair
 PID = "C16"
 MODEL_VOS = ["model/TrafficPattern.vo"]
 ASSUMPTIONS = [
+    "two-client scenarios of driver e2e (clients with low entropy on and off, different users and source addresses, one server endpoint, three orders, both transports) judge 'low entropy only toward a client that used it first' per client address; server_le_only_after_client of the model is per session (C16_server_le_only_after_client) - that the code keeps the mark per session and not per underlay is tied by these scenarios only",
     "on-the-wire half: driver e2e (-prop C16) runs real client and server Muxes over simnet with explicit patterns on each side and checks on every decoded segment: paddings <= configured maxima (0 = none), nonce prefix class/length/fixed prefix (every UDP packet when applyToAllUDPPacket), low-entropy types only when configured with the configured mode and rotation, server low entropy only after the client used it (oracle only)",
     "UDP server under adversarial histories: driver c16wire runs a real server Mux with an explicit nonce pattern and plays the client with refcodec on many sockets (NAT rebinding to a new port / IP and back, data / ack / close for unknown session ids, data after close, duplicate open requests from one and two addresses, two users interleaved and swapping sockets, open+data bursts); EVERY datagram the server emits is judged against the pattern (all of them when applyToAllUDPPacket=true, the first per client address when explicitly false); oracle only - the model side is C16_udp_pattern_independent_of_block_origin",
     "an explicit seed (0, +-1, int32 extremes included) decides the implicit values alone: every explicit-seed input of a sample of the subset grid is evaluated in a fresh process under ANOTHER host name (unshare -u; hostname) and must give the same effective pattern; an explicit seed must not give the values of an unset seed (skipped with a note if the sandbox forbids unshare)",
